@@ -320,6 +320,16 @@ def _p10(ctx):
                 okd_ = (x.dom(fail, d) and not pub) or (is_meta and not pub)
                 ctx.add('W12', 'T-GUARD', fn, okd_, 'direct deallocation only of never-published objects (CAS-failure edge) or of the stream\'s private meta block' if okd_ else
                         'a published object is freed directly at %s instead of through the deferred path' % g.where(d), where=g.where(d), sub=sub + '|dealloc.bb%d' % g.nodes[d].bb)
+                # a block whose type owns other memory (the ReaderGroup owns its Vec) is emptied before it is handed back:
+                # deallocate() only returns the block itself
+                cls = ((g.nodes[d].term.get('gtys') or [None])[0] or {}).get('adt')
+                if cls in F.adts and any(f_.get('needs_drop') for v_ in F.adts[cls]['variants'] for f_ in v_['fields']):
+                    destroys = [n_ for n_ in x.ext_calls(r'ptr::read$|ptr::drop_in_place$') if srcs & x.calls_in(g.call_args(n_)[0]) or
+                                g.strip(g.call_args(n_)[0]) == g.strip(g.call_args(d)[0])]
+                    okdd = bool(destroys) and x.dom(set(destroys), d)
+                    ctx.add('P10c', 'T-MUST', fn, okdd, 'the contents of a %s are destroyed before its block is deallocated' % short(cls) if okdd else
+                            '%s deallocates a %s without destroying its contents first (ptr::read / drop_in_place): what it owns (the list buffer) is leaked' % (short_fn(fn), short(cls)),
+                            where=g.where(d), sub=sub + '|contents.bb%d' % g.nodes[d].bb)
             # d: success: the old list is retired through the manager
             okfree = False
             for fnode in frees:
@@ -337,6 +347,12 @@ def _p10(ctx):
                     a0 = g.ev_local(inst, 2)
                     if any(s[0] == 'fld' and s[2] == 'Reader.pos' for s in g.deep_walk(a0)):
                         posfree = x.dom(succ, fnode)
+                # ... and its private consumer counter is released (directly: only this stream's own handles ever read it)
+                metas = [d_ for d_ in list(deallocs) + list(frees)
+                         if any(s_[0] == 'fld' and s_[2] == 'Reader.meta' for s_ in g.deep_walk(g.call_args(d_)[0] if d_ in deallocs else g.ev_local(g.nodes[d_].call['inlined'], 2)))]
+                okmeta = bool(metas) and bool(succ) and all(x.must(s_, set(metas)) for s_ in succ)
+                ctx.add('P10d', 'T-MUST', fn, okmeta, 'the removed stream\'s consumer counter block is released' if okmeta else
+                        'removing a stream does not release its consumer counter block (ReaderMeta) on the success path: one block leaks per removed stream', sub=sub + '|meta')
                 ctx.add('P10d', 'T-MUST', fn, posfree, 'the removed stream\'s position block is retired through the manager (writers may still scan it)' if posfree else
                         'the removed stream\'s ReaderPos is not retired through the deferred path', sub=sub + '|pos')
                 # e: last_pos
@@ -383,6 +399,20 @@ def _p10(ctx):
                 masks = [s for s in g.walk(e) if s[0] == 'fld' and s[2] == 'CountedIndex.mask']
                 okm = any(any(p.startswith('<Reader>/Reader.pos/ReaderPos.pos_data') for p in g.locpaths(('ref', s))) for s in masks)
                 ctx.add('P15w', 'T-FLOW', fn, okm, 'the new stream uses the parent\'s wrap (same count->slot map)' if okm else 'new stream wrap does not derive from the parent', sub=sub + '|wrap')
+    # the destructor of the cursor hands the last list back the same way: contents first
+    for dn in F.find_fns(r'^<read_cursor::ReadCursor as std::ops::Drop>::drop$'):
+        g = ctx.graph(dn)
+        x = g.x
+        for d in x.inlined(r'^alloc::deallocate$'):
+            cls = ((g.nodes[d].term.get('gtys') or [None])[0] or {}).get('adt')
+            if cls in F.adts and any(f_.get('needs_drop') for v_ in F.adts[cls]['variants'] for f_ in v_['fields']):
+                srcs = x.calls_in(g.call_args(d)[0])
+                destroys = [n_ for n_ in x.ext_calls(r'ptr::read$|ptr::drop_in_place$') if srcs & x.calls_in(g.call_args(n_)[0]) or
+                            g.strip(g.call_args(n_)[0]) == g.strip(g.call_args(d)[0])]
+                okdd = bool(destroys) and x.dom(set(destroys), d)
+                ctx.add('P10c', 'T-MUST', dn, okdd, 'the contents of a %s are destroyed before its block is deallocated' % short(cls) if okdd else
+                        '%s deallocates a %s without destroying its contents first (ptr::read / drop_in_place): what it owns (the list buffer) is leaked' % (short_fn(dn), short(cls)),
+                        where=g.where(d), sub=short_fn(dn) + '|contents.bb%d' % g.nodes[d].bb)
     # f: scan re-validation
     g = ctx.graph(gmd)
     x = g.x
